@@ -187,6 +187,8 @@ def classify_crash(exe, err):
         f = re.search(r"\(([A-Za-z_][A-Za-z0-9_]*)\+0x", ln)
         if not f or f.group(1) in ("vt_on_fatal",):
             continue
+        if os.path.basename(exe) not in ln.split("(")[0]:
+            continue        # a frame of libc / libm (abort, raise, memcpy ...): the caller decides whose fault it is
         name = f.group(1)
         return int(m.group(1)), name, name in syms
     return int(m.group(1)), "?", False
